@@ -469,6 +469,9 @@ def op_undeclare(w, ins):
         if not names:
             return 'skip'
         want_rm = set(names)
+    if ins.get('twice') and names:
+        # a name may be given more than once (e.g. `*names` from a list)
+        names = names + [names[ins['twice'] % len(names)]]
     ok, v = call(w, g.raw.undeclare_vars, *names)
     expect_ok(w, ok, v, 'C14', f'undeclare_vars{tuple(names)}')
     if set(v) != want_rm:
@@ -792,7 +795,8 @@ def gen_declare(w, r, cfg):
 
 
 def gen_undeclare(w, r, cfg):
-    return dict(op='undeclare', mask=r.choice([0, 0, r.randrange(1 << w.nv), r.randrange(1 << w.nv)]))
+    return dict(op='undeclare', mask=r.choice([0, 0, r.randrange(1 << w.nv), r.randrange(1 << w.nv)]),
+                twice=r.choice([0, 0, 0, 1, 2, 3]))
 
 
 def gen_sizes(w, r, cfg):
